@@ -1579,6 +1579,7 @@ func analyseLatch(f *ioFn, stream, latch string) latchFacts {
 		latched, cleared, afterCl bool
 	}
 	seen := map[key]bool{}
+	tagged := caseConds(f.fd)
 	res.latchedOnFailure, res.clearedOnFailure, res.returnsError = true, true, true
 	isE := func(e ast.Expr) bool {
 		id, ok := ast.Unparen(e).(*ast.Ident)
@@ -1685,6 +1686,9 @@ func analyseLatch(f *ioFn, stream, latch string) latchFacts {
 		}
 		if len(b.Succs) == 2 {
 			if cond := blockCond(b); cond != nil {
+				if full, isCase := tagged[cond]; isCase {
+					cond = full
+				}
 				walk(b.Succs[0], 0, refine(cond, true, st), latched, cleared, after)
 				walk(b.Succs[1], 0, refine(cond, false, st), latched, cleared, after)
 				return
